@@ -48,6 +48,8 @@ def run_case(case, acc, tier):
     src = case["src"]
     cls = case["cls"]
     acc.counters["class." + cls] += 1
+    if progbase.boolop_hoisting_prone(src):
+        ctx.data.setdefault("flags", set()).add("boolop-hoisted-out-of-expression")
     if progbase.shadows_for_builtins(src):
         ctx.data.setdefault("flags", set()).add("for-lowering-reads-shadowed-builtin")
     tree = ast.parse(src)
